@@ -19,6 +19,7 @@ import re
 
 import numpy as np
 
+from .. import alphabet as A
 from .. import build
 
 # ---------------------------------------------------------------------------- documented constants
@@ -152,12 +153,38 @@ def model_configs(thorough: bool):
     return out
 
 
+def tree_configs(nmax=2):
+    """Second family (thorough): every rooted ordered forest with <= nmax bodies x the full joint menu per body
+    (mc.alphabet), integrator and joint damping rotated over the enumeration index."""
+    out = []
+    k = 0
+    for par in A.all_forests(nmax):
+        doms = [A.joint_menu(p == -1) for p in par]
+        import itertools
+        for js in itertools.product(*doms):
+            if all(j == "none" for j in js):
+                continue
+            out.append(dict(kind="tree", parents=par, joints=js, integrator=INTEGRATORS[k % 4], damping=bool((k // 4) % 2),
+                            acts="none", sleep=False, solver="Newton", cone="pyramidal", flags=""))
+            k += 1
+    return out
+
+
 def config_tag(c):
+    if c.get("kind") == "tree":
+        return "tree parents=%s joints=%s|%s|damping=%d" % (list(c["parents"]), list(c["joints"]), c["integrator"], int(c["damping"]))
     return "%s|acts=%s|sleep=%s|%s|%s%s" % (c["integrator"], c["acts"], c["sleep"] or "off", c["solver"], c["cone"],
                                           ("|" + c["flags"].replace('"', "")) if c.get("flags") else "")
 
 
 def model_xml(c, autoreset: bool) -> str:
+    if c.get("kind") == "tree":
+        n = len(c["parents"])
+        return A.tree_mjcf(c["parents"], list(c["joints"]), axis=[i % 3 for i in range(n)], anchor=[(i + 1) % 2 for i in range(n)],
+                           frame=[1 + i % 2 for i in range(n)], geom=[A.GEOM_ORDER[i % 5] for i in range(n)],
+                           jattr='damping="0.1"' if c["damping"] else "", size='memory="1M"',
+                           option=A.option_elem(integrator=c["integrator"], timestep=0.002,
+                                                flags=dict(autoreset="enable" if autoreset else "disable")))
     acts = c["acts"]
     optattr = ""
     if acts == "none":
@@ -187,19 +214,26 @@ def make_prestate(lib, m, d, which: str):
     nu, nv = m.nu, m.nv
     ctrl = np.array([0.5, -0.3, 0.2, 0.7, 0.9, -0.4])[:nu]
     bg = lib.mj_name2id(m, 1, b"g")          # mjOBJ_BODY
+    if bg < 0:
+        bg = m.nbody - 1
+        d.qvel[:] = 0.3 * np.cos(1.0 + np.arange(nv))
     for _ in range(WARM_STEPS):
         if nu:
             d.ctrl[:] = ctrl
         d.qfrc_applied[:] = 0.01 * np.cos(np.arange(nv))
         d.xfrc_applied[:] = 0.0
         d.xfrc_applied[bg, :] = [0.1, -0.2, 0.3, 0.01, 0.02, -0.03]
-        d.mocap_pos[0, :] = [0.01, 1.0, 1.02]
-        d.mocap_quat[0, :] = [0.9998, 0.01, -0.01, 0.012]
+        if m.nmocap:
+            d.mocap_pos[0, :] = [0.01, 1.0, 1.02]
+            d.mocap_quat[0, :] = [0.9998, 0.01, -0.01, 0.012]
         lib.mj_step(m, d)
     # emulate earlier warnings (documented use of mj_warning) so that "counters are cleared upon reset" is observable
+    # (a counter equal to 1 is what an earlier automatic reset leaves behind)
     lib.mj_warning(d, 0, 11)
     lib.mj_warning(d, W_BADQPOS, 1)
     lib.mj_warning(d, W_BADQPOS, 2)
+    lib.mj_warning(d, W_BADQVEL, 3)
+    lib.mj_warning(d, W_BADQACC, 4)
     lib.mj_warning(d, W_BADCTRL, 0)
 
 
